@@ -315,11 +315,15 @@ def obligations(tier):
             obs.append(Ob('remap_law', timeout=T, pins={'root': root, 'nmin': 1, 'nmax': 4, 'alias': 0, 'visit': 0, 'keystyle': ks}))
             if not q:
                 for k1 in range(6):       # five nodes, partitioned by the kind of the second node
+                    if root in (SET, FSET) and k1 not in HASHABLE_KINDS:
+                        continue          # a set cannot hold an unhashable second node: nothing to build
                     obs.append(Ob('remap_law', timeout=T, pins={'root': root, 'nmin': 5, 'nmax': 5, 'k1': k1, 'alias': 0, 'visit': 0, 'keystyle': ks}))
         obs.append(Ob('remap_law', timeout=T if q else 2700, pins={'root': root, 'nmin': 1, 'nmax': 3 if q else 4, 'alias': 1, 'visit': 0},
                       need_kinds=('alias',) + (('cycle',) if root in (1, 2) else ())))
     for root in (1, 2, 3):
         for cell in range(6):
-            obs.append(Ob('remap_law', timeout=T if q else 2700, pins={'root': root, 'nmin': 2, 'nmax': 3 if q else 4, 'alias': 0 if q else 1, 'visit': 1, 'cell': cell,
-                                                        'keystyle': cell % 2}))
+            obs.append(Ob('remap_law', timeout=T, pins={'root': root, 'nmin': 2, 'nmax': 3 if q else 4, 'alias': 0, 'visit': 1, 'cell': cell, 'keystyle': cell % 2}))
+            if not q:
+                # with an alias edge the four-node family does not finish in 25 min per obligation (measured): three nodes
+                obs.append(Ob('remap_law', timeout=T, pins={'root': root, 'nmin': 2, 'nmax': 3, 'alias': 1, 'visit': 1, 'cell': cell, 'keystyle': cell % 2}))
     return obs
